@@ -7,7 +7,7 @@ WT="$1"; shift
 export GOFLAGS=-mod=mod GOPROXY=off GOSUMDB=off GOTOOLCHAIN=local
 T="$(mktemp -d /tmp/verif-seedchk-XXXXXX)"; trap 'rm -rf "$T"' EXIT
 mkdir "$T/clean" && git -C "$WT" archive HEAD | tar -x -C "$T/clean"
-( cd "$WT" && git diff > SEED/patch.diff )
+( cd "$WT" && git add -N . ":!SEED" 2>/dev/null; git diff -- . ":!SEED" > SEED/patch.diff )  # -N: new files of the change show up in the diff
 echo "patch: $(grep -c '^[-+][^-+]' "$WT/SEED/patch.diff") changed lines in $(grep -c '^diff' "$WT/SEED/patch.diff") files"
 ( cd "$WT/SEED" && timeout 600 bash ./demo.sh "$T/clean" > "$T/demo_clean.log" 2>&1 ); echo "demo on clean tree: exit $?"
 ( cd "$WT/SEED" && timeout 600 bash ./demo.sh "$WT" > "$T/demo_mod.log" 2>&1 ); echo "demo on modified tree: exit $?"
